@@ -421,6 +421,8 @@ class ParallelTemperedChain(BaseChain):
         """
         if self._temperature_acceptance is None:
             return None
+        if len(self._temperature_acceptance) == 0:
+            return numpy.zeros((self.ntemps-1, 0))
         out = self._temperature_acceptance[:(len(self)//self.swap_interval)]
         return out['acceptance_ratio'].T
 
@@ -437,6 +439,8 @@ class ParallelTemperedChain(BaseChain):
         """
         if self._temperature_swaps is None:
             return None
+        if len(self._temperature_swaps) == 0:
+            return numpy.zeros((self.ntemps, 0), dtype=int)
         out = self._temperature_swaps[:(len(self)//self.swap_interval)]
         return out['swap_index'].T
 
